@@ -144,7 +144,7 @@ PROPS = {
         "assumptions": [],
     },
     "C14": {
-        "bin": "px_sixel", "budget_ms": 20000, "case_wall_ms": 60000, "judge_budget": True, "wall_cap": {"quick": 600, "thorough": 1800},
+        "bin": "px_sixel", "budget_ms": 20000, "case_wall_ms": 60000, "judge_budget": True, "mem_cap_mb": 3072, "wall_cap": {"quick": 600, "thorough": 1800},
         "rule": "payloads: every string of <=5 (thorough 6) tokens over a 16-token sixel alphabet through Sixel::parse_from (oracles: 4wh bytes; one declaration before the data -> the image is the data rectangle or the declared rectangle, not a mix; a three parameter declaration declares the width only; without declaration every set pixel is inside); schedules: every interleaving of in-order arrivals, "
                 "any-order completions (decode threads held at the cfg gate and released one by one) and 0..P polls in every gap for k<=4 images in flight x image-to-arrival assignments, "
                 "the count cross-checked against an independent DP; oracle after every poll against a sequential reference model, incl. the returned updated flag against what the poll put on the screen; the same images as an .ans file (every arrival order of 1..=4 images): image layers bottom to top in arrival order; non-trivial = payload sets at least one pixel / every schedule",
